@@ -57,6 +57,10 @@ func runC04(c *core.Ctx) {
 	keepalive := []time.Duration{ka, 0}[t.Pick([]int{5, 1}, "kazero")]
 	liteB := t.Bias(1, 4, "liteB")
 	neverConnect := t.Bias(1, 5, "neverconnect")
+	// renomination enabled: the controlling application renominates its selected pair now and then (also while
+	// the peer is silent, so that the renomination stays unanswered)
+	renom := t.Bias(1, 3, "renomination")
+	c.Knob("renomination", renom)
 	ci := ka / time.Duration(ciDiv)
 	c.Knob("ka", keepalive.String())
 	c.Knob("ci", ci.String())
@@ -68,6 +72,9 @@ func runC04(c *core.Ctx) {
 	mkOpts := func(lite bool) ([]ice.AgentOption, time.Duration, time.Duration, time.Duration) {
 		o := []ice.AgentOption{ice.WithCheckInterval(ci), ice.WithKeepaliveInterval(keepalive),
 			ice.WithCandidateTypes([]ice.CandidateType{ice.CandidateTypeHost}), ice.WithMaxBindingRequests(1000)}
+		if renom {
+			o = append(o, ice.WithRenomination(ice.DefaultNominationValueGenerator()))
+		}
 		F := time.Duration(fMul) * ka
 		o = append(o, ice.WithFailedTimeout(F))
 		var D, dl time.Duration
@@ -92,7 +99,26 @@ func runC04(c *core.Ctx) {
 	}
 	oa, da, fa, dla := mkOpts(false)
 	ob, db, fb, dlb := mkOpts(liteB)
-	d, err := rig.NewDuo(c, rig.DuoCfg{AddrsA: []string{"10.0.1.10"}, AddrsB: []string{"10.0.2.10"}, OptsA: oa, OptsB: ob})
+	duoCfg := rig.DuoCfg{AddrsA: []string{"10.0.1.10"}, AddrsB: []string{"10.0.2.10"}, OptsA: oa, OptsB: ob}
+	if t.Bias(1, 4, "config-constructor") {
+		// the same configuration handed over as an AgentConfig (the constructor applications used before the
+		// options existed): explicit values are explicit there too, lite defaults apply only to what was left out
+		mkCfg := func(lite bool) *ice.AgentConfig {
+			mbr := uint16(1000)
+			ciV, kaV := ci, keepalive
+			F := time.Duration(fMul) * ka
+			cfg := &ice.AgentConfig{CheckInterval: &ciV, KeepaliveInterval: &kaV, FailedTimeout: &F,
+				CandidateTypes: []ice.CandidateType{ice.CandidateTypeHost}, MaxBindingRequests: &mbr, Lite: lite}
+			if dMul >= 0 {
+				D := time.Duration(dMul) * ka
+				cfg.DisconnectedTimeout = &D
+			}
+			return cfg
+		}
+		duoCfg.ConfigA, duoCfg.ConfigB = mkCfg(false), mkCfg(liteB)
+		c.Knob("constructor", "AgentConfig")
+	}
+	d, err := rig.NewDuo(c, duoCfg)
 	if err != nil {
 		c.Failf("harness/setup", "%v", err)
 		return
@@ -316,7 +342,21 @@ func runC04(c *core.Ctx) {
 				c.Fault("silence-toggle")
 			}
 		case 3:
-			switch c.T.Pick([]int{6, 2, 1}, "life") {
+			switch c.T.Pick([]int{6, 2, 1, map[bool]int{true: 4, false: 0}[renom]}, "life") {
+			case 3: // the controlling application renominates the selected pair
+				if !A.closed {
+					snap := rig.TakeSnap(d.A)
+					for _, p := range snap.Pairs {
+						if snap.Selected != "" && p.Key() == snap.Selected {
+							if lc, rc := c20Find(d.A, p.Local, p.Remote); lc != nil && rc != nil {
+								if err := d.A.A.RenominateCandidate(lc, rc); err == nil {
+									c.Fault("renominate-selected-pair")
+								}
+								d.S.Settle()
+							}
+						}
+					}
+				}
 			case 1: // Restart both sides, re-signal
 				if A.closed || B.closed {
 					break
